@@ -3,7 +3,7 @@ import json
 import lib
 from lib import *
 
-TIERS = {"quick": dict(runs=120, steps=40, maxsid=5, writes=2), "thorough": dict(runs=6000, steps=60, maxsid=6, writes=3)}
+TIERS = {"quick": dict(runs=120, steps=40, maxsid=5, writes=2), "thorough": dict(runs=15000, steps=60, maxsid=6, writes=3)}
 BAD_TOKENS = ["xyz", "not-a-uuid", "00000000-0000-0000-0000", "%00", "a" * 5000, "1", "null"]
 
 
